@@ -34,11 +34,17 @@ twice each; C02, C03, C05, C07, C10, C14, C16 once): 8 / 0 / 2 / 3.  A fifth rou
 the existing ones, leaving every existing function intact - since rules anchored in
 existing functions could be blind to those: 6 / 0 / 2 / 0 (the two led to C04 R10, "the
 process table is written only by Watcher", and C05 R9, "reap_process(pid) only for a child
-known to be gone" - the latter also exposed a genuine defect, section 10).  Every miss
-led to a rule (often one shared between properties whose statements overlap); all 81 are
-now caught by their target.  The first-pass rate did not improve between rounds: independently written
+known to be gone" - the latter also exposed a genuine defect, section 10).  A sixth round
+of 20 (ids hNN, one per property, run after all of the above) gave each agent an ANGLE
+instead of a list of used sites - fault path, interaction of two options, lower-layer
+helper, "optimisation", ordering across a suspension point: 9 / 0 / 4 / 7.  Two of the
+four "other" catches were right for the wrong reason (C04 R9 and C08 R3 did not recognise a
+direct loop.stop() as stopping the loop and so alarmed on h06, which breaks C06 only): those
+rules were corrected to stay silent and C06 R10 written for what h06 really breaks.  Every
+miss led to a rule (often one shared between properties whose statements overlap); all
+101 are now caught by their target.  The first-pass rate did not improve between rounds: independently written
 breakages keep finding clauses no rule covered yet - the honest reading is that a new
-change has roughly an even chance of hitting an existing rule, and that the 81 stored
+change has roughly an even chance of hitting an existing rule, and that the 101 stored
 ones are regression tests, not a coverage measure.
 
 | id | property | change | needs, to manifest | caught by |
